@@ -61,12 +61,22 @@ package crl
 //@     (forall k :: 0 <= k && k < NB(b) ==> elemptr(BaseEntries(b), k).SerialNumber != nil) &&
 //@     (b.DeltaCRL != nil ==> (forall k :: 0 <= k && k < ND(b) ==> elemptr(DeltaEntries(b), k).SerialNumber != nil)) }
 
+// the invalidity date of an entry: the value of its (last) invalidity-date extension, decoded as a GeneralizedTime
+// with no trailing bytes; an entry is malformed if such an extension does not decode
+//@ spec func IsInv(e *x509.RevocationListEntry, k int) bool { e.Extensions[k].Id.Equal(oidInvalidityDate) }
+//@ spec func InvOK(e *x509.RevocationListEntry, k int) bool { AsnTimeOK(e.Extensions[k].Value) && AsnRestLen(e.Extensions[k].Value) == 0 }
 //@ func parseEntryExtensions(entry)
 //@   requires entry != nil
 //@   ensures [crit] err == nil ==> !UnknownCrit(entry)
 //@   ensures [zero] err != nil ==> result.invalidityDate.IsZero()
+//@   ensures [err-iff] err != nil <==> (exists k :: 0 <= k && k < len(entry.Extensions) && ((IsInv(entry, k) && !InvOK(entry, k)) || (!IsInv(entry, k) && entry.Extensions[k].Critical)))
+//@   ensures [no-date] (err == nil && (forall k :: 0 <= k && k < len(entry.Extensions) ==> !IsInv(entry, k))) ==> result.invalidityDate.IsZero()
+//@   ensures [date] err == nil ==> (forall k :: 0 <= k && k < len(entry.Extensions) && IsInv(entry, k) && (forall j :: k < j && j < len(entry.Extensions) ==> !IsInv(entry, j)) ==> result.invalidityDate == AsnTime(entry.Extensions[k].Value))
 //@   loop 0
 //@     invariant forall k :: 0 <= k && k < it ==> (entry.Extensions[k].Critical ==> entry.Extensions[k].Id.Equal(oidInvalidityDate))
+//@     invariant forall k :: 0 <= k && k < it ==> (IsInv(entry, k) ==> InvOK(entry, k))
+//@     invariant (forall k :: 0 <= k && k < it ==> !IsInv(entry, k)) ==> extensions.invalidityDate.IsZero()
+//@     invariant forall k :: 0 <= k && k < it && IsInv(entry, k) && (forall j :: k < j && j < it ==> !IsInv(entry, j)) ==> extensions.invalidityDate == AsnTime(entry.Extensions[k].Value)
 //@   pure
 
 //@ func checkRevocation(cert, b, signingTime, crlURL)
